@@ -110,6 +110,8 @@ func checkC06(c *Ctx, r *Report) {
 	}
 	// ... and the commands the library builds for the caller carry the caller's arguments
 	checkHelperRequests(c, r)
+	// ... of commands whose definitions (operation tables) nothing rewrites at run time (shared with C19, C03)
+	checkPackageTablesReadOnly(c, r)
 
 	checkOperationTable(c, r)
 	checkBuildLiterals(c, r)
